@@ -527,17 +527,17 @@ def e2e(ctx, rng, gs, n_reps):
     # great-circle distance: explicit bins in any length unit (geo_scale) and the documented default bins
     # (Sturges bin count, a third of the great-circle bounding-box diameter) must give the pair enumeration
     for rep in range(6 * n_reps):
-        n = int(rng.choice([5, 9, 14]))
+        n = [5, 8, 9, 14, 16][(rep // 5) % 5]          # cycled with the mode: power-of-two counts meet every default rule
         span = float(rng.choice([2.0, 20.0, 80.0]))
         lat = rng.uniform(-span, span, size=n)
         lon = rng.uniform(-2 * span, 2 * span, size=n)
         pos = np.array([lat, lon])
         nf = int(rng.integers(1, 3))
         f = rng.normal(size=(nf, n))
-        if rng.random() < 0.3:
+        if rng.random() < 0.3 and n not in (8, 16):
             f[rng.random(size=f.shape) < 0.15] = np.nan
         gsc = [1.0, float(gs.KM_SCALE), float(gs.DEGREE_SCALE), float(rng.uniform(0.3, 40.0))][int(rng.integers(4))]
-        mode = ["explicit", "default", "bin_no", "max_dist", "both"][int(rng.integers(5))]
+        mode = ["explicit", "default", "bin_no", "max_dist", "both"][rep % 5]
         est = "matheron" if rng.random() < 0.6 else "cressie"
         # independent computation of the documented default binning
         keep = ~np.isnan(f).all(axis=0)          # points missing in every field count as removed
